@@ -27,12 +27,17 @@ LEVEL_TEXT = ('every system, data matrix and HMF step sequence of the stated fin
 LEVEL_NOTE = ('trusts Python Fraction arithmetic, numpy.linalg.lstsq/eigvalsh and the harness re-statement of the HMF objective; HMF data are '
               'tiny synthetic rank-2-plus-deterministic-noise matrices and all randomness is fixed through the HMF seed argument')
 RULE = ('chi2: every A over a small integer alphabet (n<=4, m<=3) x every sqivar pattern over {0,1/2,1,2} x right-hand sides, rank-deficient '
-        'systems skipped by an exact rational test, plus a 20x3 Vandermonde system with every single/pair of zero weights; pcomp: every data '
-        'matrix of the listed shapes/alphabets x standardize x covariance; hmf: every (mode, data set, K, epsilon, mask, seed) root and every '
+        'systems skipped by an exact rational test, plus a 20x3 Vandermonde system with every single/pair of zero weights, plus a conditioning '
+        'ladder (templates 1..x^3 in raw pixel number over 30..200 pixels x column scalings 2^+-10/20 x weights x right-hand sides, '
+        'cond(AtWA) 1e2..1e12); pcomp: every data matrix of the listed shapes/alphabets x unit factor {1,1e3,1e-3,1e-7,1e-17} x standardize x covariance; hmf: every (mode, data set, K, epsilon, mask, seed) root and every '
         'step sequence up to the depth, states merged when (a, g) are bitwise equal; pca: every (data, mask, nkeep, niter, maxiter). '
         'Non-trivial: chi2 with more good rows than unknowns or non-unit weights; pcomp with a non-diagonal matrix; HMF transitions that '
         'change the state; pca with at least one masked pixel or nkeep >= 2. Distinct = distinct case tuples (HMF: root + step path).')
 ASSUMPTIONS = ['computechi2: "full rank" is decided exactly (rational arithmetic) on A restricted to rows with non-zero weight; tolerance 1e-9 relative',
+               'computechi2 conditioning ladder: tolerance 1e-9*cond(A sqrt(W)) normwise against the exact rational solution of the float inputs; '
+               'systems with cond(A^T W A) >= 1e12 are not claimed (skipped and counted)',
+               'pcomp: all tolerances are relative to the largest eigenvalue of the reference matrix (unit independent); eigenvalues must scale '
+               'with the square of a unit factor in covariance mode and not at all in correlation/standardised mode',
                'pcomp: columns with zero variance are skipped when a correlation matrix or standardisation is requested; with standardize=True '
                'either normalisation convention (ddof 0 or 1) and either reading of "data" (raw, centred or standardised) is accepted',
                'HMF: data have no all-zero columns (documented limitation) and every row/column keeps more good pixels than K; for epsilon > 0 '
@@ -135,6 +140,77 @@ def check_chi2(case):
     return bad, label
 
 
+# ---------------------------------------------------------------------- conditioning ladder
+LADDER_COEFF = [2.0, -3.0, 1.5, -2.5]
+LADDER_CLAIM = 1e12          # systems with cond(A^T W A) at or above this are not claimed (skipped and counted)
+_LADDER_DEBUG = {}
+
+
+def ladder_arrays(case):
+    """Polynomial templates 1, x, .., x^deg in raw pixel number x = 0..n-1, optionally one column scaled by 2^spow."""
+    n, deg = case['n'], case['deg']
+    A = np.array([[float(i) ** k for k in range(deg + 1)] for i in range(n)])
+    if case['scol'] is not None:
+        A[:, case['scol']] *= 2.0 ** case['spow']
+    wk = case['wkind']
+    if wk == 'unit':
+        s = np.ones(n)
+    elif wk == 'alt':
+        s = np.array([0.5 if i % 2 else 2.0 for i in range(n)])
+    else:   # 'gaps': zero weights every 7th pixel, three weight levels elsewhere
+        s = np.array([0.0 if i % 7 == 3 else (1.0, 1.5, 2.0)[i % 3] for i in range(n)])
+    bk = case['bkind']
+    t = np.arange(n) / float(n - 1)
+    if bk == 'poly':
+        b = sum(LADDER_COEFF[k] * t ** k for k in range(deg + 1))
+    elif bk == 'bump':
+        b = np.array([INTB[(i * 5) % 6] for i in range(n)])
+    else:   # 'unit'
+        b = np.zeros(n)
+        b[n // 2] = 1.0
+    return A, s, np.asarray(b, dtype=float)
+
+
+def check_chi2_ladder(case):
+    """computechi2 on moderately ill-conditioned full-rank systems; oracle = exact rational normal equations of the
+    float inputs; tolerance 1e-9 * cond(A sqrt(W)) (what a backward-stable float64 solve can promise), normwise."""
+    from pydl.pydlutils.math import computechi2
+    A, s, b = ladder_arrays(case)
+    n, m = A.shape
+    sv = np.linalg.svd((A * s[:, None])[s > 0], compute_uv=False)
+    condA = float(sv[0] / sv[-1]) if sv[-1] > 0 else float('inf')
+    decade = int(np.floor(np.log10(condA * condA))) if np.isfinite(condA) else 99
+    if not condA * condA < LADDER_CLAIM:
+        return None, 'skip:chi2-ladder:cond(AtWA)>=1e12'
+    ref = chi2_reference([[Fraction(v) for v in row] for row in A.tolist()], [Fraction(v) for v in s.tolist()], b.tolist())
+    if ref is None:
+        return None, 'skip:rank-deficient'
+    trig = ':cond(AtWA)>=1e%d' % min(decade, 11) if decade >= 6 else ''
+    try:
+        c = computechi2(b.copy(), s.copy(), A.copy())
+        got = {'acoeff': c.acoeff, 'yfit': c.yfit, 'chi2': c.chi2, 'dof': c.dof, 'covar': c.covar, 'var': c.var}
+    except Exception as e:
+        return [('computechi2:exception:%s%s' % (type(e).__name__, trig), repr(e))], 'exc'
+    tol = 1e-9 * max(1.0, condA)
+    bad = []
+    scales = {'acoeff': float(np.abs(ref['acoeff']).max()), 'yfit': float(np.abs(ref['yfit']).max() + np.abs(b).max()),
+              'chi2': float(abs(ref['chi2']) + np.sum((s * b) ** 2)), 'covar': float(np.abs(ref['covar']).max()),
+              'var': float(np.abs(ref['var']).max())}
+    worst = 0.0
+    for name in ('acoeff', 'yfit', 'chi2', 'covar', 'var'):
+        g = np.asarray(got[name], dtype=float)
+        e = np.asarray(ref[name], dtype=float)
+        err = float(np.abs(g - e).max()) if g.shape == e.shape and np.all(np.isfinite(g)) else float('inf')
+        worst = max(worst, err / (tol * scales[name] + 1e-300))
+        if not err <= tol * scales[name] + 1e-300:
+            bad.append(('computechi2:%s%s' % (name, trig), 'cond(AtWA) %.3g: max error %.3g (allowed %.3g); got %s expected %s'
+                        % (condA * condA, err, tol * scales[name], np.asarray(g).ravel()[:4].tolist(), np.asarray(e).ravel()[:4].tolist())))
+    if int(got['dof']) != ref['dof']:
+        bad.append(('computechi2:dof' + trig, 'got %r expected %r' % (got['dof'], ref['dof'])))
+    _LADDER_DEBUG['worst'] = worst          # calibration aid (ratio error/allowance); not part of the verdict
+    return bad, 'ok:chi2:ladder:deg%d:cond(AtWA)~1e%d' % (case['deg'], decade)
+
+
 # ====================================================================== pcomp
 def pcomp_reference(X, standardize, covariance):
     """List of acceptable (matrix, data-used) pairs, built without numpy.cov / corrcoef."""
@@ -171,7 +247,8 @@ def pcomp_reference(X, standardize, covariance):
 
 def check_pcomp(case):
     from pydl.pcomp import pcomp
-    X = np.array(case['x'], dtype=float)
+    unit = float(case.get('scale', 1.0))
+    X = np.array(case['x'], dtype=float) * unit
     std, cov = case['standardize'], case['covariance']
     refs = pcomp_reference(X, std, cov)
     if isinstance(refs, str):
@@ -189,7 +266,7 @@ def check_pcomp(case):
     bad = []
     M0 = refs[0][0]
     evref0 = np.sort(np.linalg.eigvalsh(M0))[::-1]
-    scale = 1.0 + float(np.abs(evref0).max())
+    scale = float(np.abs(evref0).max())         # all tolerances are relative to the size of the matrix (unit independent)
     singular = bool(evref0[-1] < 1e-9 * scale)
     strig = ':singular-matrix' if singular else ''
     if ev.shape != (nv,) or np.any(np.diff(ev) > 1e-12 * scale):
@@ -211,12 +288,22 @@ def check_pcomp(case):
     if not (abs(float(vf.sum()) - 1.0) <= 1e-9) or vf.shape != (nv,):
         bad.append(('pcomp:variance-sum' + strig, 'variance %s' % vf.tolist()))
     if np.all(np.isfinite(co)):
-        dscale = 1.0 + float(np.abs(X).max()) * float(np.abs(co).max()) * nv
+        dscale = max(float(np.abs(D).max()) for D in datas) * float(np.abs(co).max()) * nv
         if not any(de.shape == (X.shape[0], nv) and np.all(np.abs(de - D.dot(co)) <= 1e-9 * dscale) for D in datas):
             bad.append(('pcomp:derived' + (':standardize' if std else ''),
                         'derived[0] %s, data[0] x components %s' % (de[0].tolist() if de.ndim == 2 else de.shape, datas[0][0].dot(co).tolist())))
-    offdiag = bool(np.any(np.abs(M0 - np.diag(np.diag(M0))) > 1e-12))
-    return bad, 'ok:pcomp:%s:%s' % (flags, 'singular' if singular else ('diag' if not offdiag else 'full'))
+    if unit != 1.0:
+        # metamorphic: eigenvalues(c x) = c^2 eigenvalues(x) for a covariance matrix of raw data, unchanged otherwise
+        try:
+            ev1 = np.asarray(pcomp(np.array(case['x'], dtype=float), standardize=std, covariance=cov).eigenvalues, dtype=float)
+            fac = unit * unit if (cov and not std) else 1.0
+            if ev1.shape != ev.shape or not np.all(np.abs(ev - fac * ev1) <= 1e-9 * fac * float(np.abs(ev1).max())):
+                bad.append(('pcomp:eigenvalues-not-scale-covariant:' + ('covariance' if fac != 1.0 else 'unit-free'),
+                            'data x %g: eigenvalues %s, unscaled %s (expected factor %g)' % (unit, ev.tolist(), ev1.tolist(), fac)))
+        except Exception as e:
+            bad.append(('pcomp:exception:%s' % type(e).__name__, repr(e)))
+    offdiag = bool(np.any(np.abs(M0 - np.diag(np.diag(M0))) > 1e-12 * scale))
+    return bad, 'ok:pcomp:%s:%s:%s' % (flags, 'singular' if singular else ('diag' if not offdiag else 'full'), 'x%g' % unit)
 
 
 # ====================================================================== HMF
@@ -638,6 +725,8 @@ def check_case(case):
     f = case['f']
     if f == 'chi2':
         return check_chi2(case)
+    if f == 'chi2ladder':
+        return check_chi2_ladder(case)
     if f == 'pcomp':
         return check_pcomp(case)
     if f == 'hmf':
@@ -690,17 +779,21 @@ def tasks(tier):
             t.append({'f': 'chi2', 'kind': 'm2n4', 'first': list(first), 'T': T})
         for first in itertools.product((0, 1), repeat=3):
             t.append({'f': 'chi2', 'kind': 'm3n4', 'first': list(first), 'T': T})
-    # pcomp
-    t.append({'f': 'pcomp', 'shape': [3, 2], 'alpha': [0, 1, 2], 'first': [], 'T': T})
+    for deg in (1, 2, 3):
+        for n in ((30, 60, 100, 200) if not T else (30, 45, 60, 80, 100, 150, 200)):
+            t.append({'f': 'chi2ladder', 'deg': deg, 'n': n, 'T': T})
+    # pcomp (the unit menu multiplies the same data matrices by a physical-unit factor)
+    U_ALL = [1.0, 1e3, 1e-3, 1e-7, 1e-17]
+    t.append({'f': 'pcomp', 'shape': [3, 2], 'alpha': [0, 1, 2], 'first': [], 'units': U_ALL, 'T': T})
     for first in itertools.product((0, 1, 2), repeat=2):
-        t.append({'f': 'pcomp', 'shape': [4, 2], 'alpha': [0, 1, 2], 'first': list(first), 'T': T})
+        t.append({'f': 'pcomp', 'shape': [4, 2], 'alpha': [0, 1, 2], 'first': list(first), 'units': U_ALL if T else [1.0, 1e3, 1e-7, 1e-17], 'T': T})
     for first in itertools.product((0, 1), repeat=3):
-        t.append({'f': 'pcomp', 'shape': [4, 3], 'alpha': [0, 1], 'first': list(first), 'T': T})
+        t.append({'f': 'pcomp', 'shape': [4, 3], 'alpha': [0, 1], 'first': list(first), 'units': U_ALL if T else [1.0, 1e-7], 'T': T})
     if T:
         for first in itertools.product((-1, 0, 1, 2), repeat=2):
-            t.append({'f': 'pcomp', 'shape': [4, 2], 'alpha': [-1, 0, 1, 2], 'first': list(first), 'T': T})
+            t.append({'f': 'pcomp', 'shape': [4, 2], 'alpha': [-1, 0, 1, 2], 'first': list(first), 'units': [1.0, 1e3, 1e-7, 1e-17], 'T': T})
         for first in itertools.product((0, 1), repeat=3):
-            t.append({'f': 'pcomp', 'shape': [5, 3], 'alpha': [0, 1], 'first': list(first), 'T': T})
+            t.append({'f': 'pcomp', 'shape': [5, 3], 'alpha': [0, 1], 'first': list(first), 'units': [1.0, 1e-3, 1e-17], 'T': T})
     # HMF transition systems: one shard per root family
     datas = ['D1', 'D2'] + (['D3'] if T else [])
     for mode in ('ls', 'nn'):
@@ -776,15 +869,28 @@ def run_task(task):
                     s = [0.0 if i in zs else (1.0 if wk == 'unit' else (0.5 if i % 2 else 2.0)) for i in range(n)]
                     for bk in ('e0', 'e10', 'quad', 'bump'):
                         _do(acc, {'f': 'chi2', 'vander': True, 's': s, 'b': bs[bk]}, True)
+    elif f == 'chi2ladder':
+        deg, n = task['deg'], task['n']
+        variants = [(None, 0)] + [(col, p) for col in (0, deg) for p in (10, -10)]
+        if T:
+            variants += [(col, p) for col in (0, deg) for p in (20, -20)] + ([(1, 10), (1, -10)] if deg >= 2 else [])
+        for scol, spow in variants:
+            for wk in ('unit', 'alt', 'gaps'):
+                for bk in ('poly', 'bump', 'unit'):
+                    _do(acc, {'f': 'chi2ladder', 'deg': deg, 'n': n, 'scol': scol, 'spow': spow, 'wkind': wk, 'bkind': bk}, True)
     elif f == 'pcomp':
         r, c = task['shape']
         first = tuple(task['first'])
         for rest in itertools.product(task['alpha'], repeat=r * c - len(first)):
             flat = first + rest
             X = [list(flat[i * c:(i + 1) * c]) for i in range(r)]
-            for std in (False, True):
-                for cov in (False, True):
-                    _do(acc, {'f': 'pcomp', 'x': X, 'standardize': std, 'covariance': cov}, True)
+            for unit in task['units']:
+                for std in (False, True):
+                    for cov in (False, True):
+                        case = {'f': 'pcomp', 'x': X, 'standardize': std, 'covariance': cov}
+                        if unit != 1.0:
+                            case['scale'] = unit
+                        _do(acc, case, True)
     elif f == 'hmf':
         for mask in mask_menu(task['data'], task['maskkind']):
             seen = set()
